@@ -85,20 +85,16 @@ theorem C02_for_step_neg (var : Name) (to step v : Dec) (m : M) (f : Frame)
 /-! ## forEach / count / select / apply / findIf: one iteration per element, in order -/
 
 /-- while elements remain, `forEach` restarts its frame with `_x` and `_forEachIndex` bound to the
-next element; after the last element it ends -/
+next element; after the last element — or when the code has shortened the array below the next index — it ends -/
 theorem C02_forEach_next (arr idx : Nat) (m : M) :
     behDecide (.forEach arr idx (m.arr arr).length) none m =
-      if idx + 1 = (m.arr arr).length then ([], .forEach arr (idx + 1) (m.arr arr).length, .ok, false)
-      else if (m.arr arr).length ≤ idx + 1 then
-        ([.clearV, .setVars []], .forEach arr (idx + 1) (m.arr arr).length, .ok, true)
+      if (m.arr arr).length ≤ idx + 1 then ([], .forEach arr (idx + 1) (m.arr arr).length, .ok, false)
       else ([.clearV, .setVars [(n!"_foreachindex", num (idx + 1)), (n!"_x", nth (m.arr arr) (idx + 1))]],
             .forEach arr (idx + 1) (m.arr arr).length, .seekStart, false) := by
   simp only [behDecide, resizeActs, iterNext]
-  by_cases h1 : idx + 1 = (m.arr arr).length
-  · simp [h1]
-  · by_cases h2 : (m.arr arr).length ≤ idx + 1
-    · simp [h1, h2]
-    · simp [h1, h2]
+  by_cases h2 : (m.arr arr).length ≤ idx + 1
+  · simp [h2]
+  · simp [h2]
 
 /-- number of times `forEach` restarts its frame from index `idx` on: all remaining elements -/
 def forEachRestarts (size : Nat) : Nat → Nat → Nat
